@@ -72,7 +72,10 @@ type OpaqueV struct {
 	Kind string
 	Data interface{}
 }
-type FloatV struct{ F float64 }
+type FloatV struct {
+	F       float64
+	Unknown bool // converted from a symbolic integer: may only flow into logging/telemetry
+}
 type PoisonV struct{ Why string }
 
 // Blob is the typed content of a marshalled record.
@@ -168,7 +171,7 @@ func zeroValue(t types.Type) Value {
 		case u.Info()&types.IsString != 0:
 			return MkStr("")
 		case u.Info()&types.IsFloat != 0:
-			return &FloatV{0}
+			return &FloatV{F: 0}
 		case u.Kind() == types.UnsafePointer:
 			return NilPtr
 		case u.Kind() == types.UntypedNil:
